@@ -123,6 +123,10 @@ SPECS = {
                 note=NOTE_MODEL, design_ref="DESIGN.md 4.12",
                 rule="same stream; deep before/after comparison of the argument object, tracer-based attribute and bond-data carrying, repeated calls; non-trivial as for C13"),
     "C01": dict(fn=c01, level="proof", components=["K4", "K5", "K6", "K7"], assumptions=MOL_ASSUME,
+                claim="Theorem tucan_invariant: for every oracle meeting the bliss contract (H1, H2), any two descriptions of one molecule (renaming, listing orders, bond orientation, payload) "
+                      "give the same string; proved through label independence of the refinement, uniqueness of the canonical view, and serialize_depends_on_view_only "
+                      "(worklist traversal, sort by Z, Hill formula, tuples, attribute blocks read the graph only through sorted / order-independent views). Unbounded in size and relabelling.",
+                note=NOTE_MODEL, design_ref="DESIGN.md 4.1",
                 rule="same stream + exhaustive small scope grouped by string against brute-force isomorphism classes; strings of relistings compared byte for byte; non-trivial as for C13"),
     "C02": dict(fn=c02, level="proof", components=["K5", "K7"], assumptions=MOL_ASSUME,
                 rule="same stream + near-miss families (cospectral / same degree sequence pairs, moved labels, CFI) + exhaustive small scope; all molecules of the run grouped by string and "
@@ -134,8 +138,23 @@ SPECS = {
 }
 
 
+import parse_checks
+for _k, _v in parse_checks.SPECS.items():
+    SPECS[_k] = dict(_v)
+SPECS["C10"].update(
+    claim="Theorems ref_parse_sound_complete / ref_parse_errors_typed / sem_accepts_iff / sem_graph_spec / lex_text_print: the executable reference reader accepts exactly the "
+          "inductive transcription `Sentence` of the published EBNF (tables regenerated from tucan.g4 and tucan.ebnf, proved identical) plus the three semantic conditions, and returns the denoted graph. "
+          "The ANTLR-generated recogniser is NOT modelled: the implementation is tied to the reference by K8 (differential: sentences, all single-token mutants of samples, raw-character mutants) only.",
+    note=NOTE_MODEL + " For C10 the theorem is about the reference reader; the implementation inherits it only as far as K8 samples (ANTLR ATN interpreter is outside the model).",
+    design_ref="DESIGN.md 4.10", replay=parse_checks.replay)
+SPECS["C11"].update(replay=parse_checks.replay)
+
+
 def replay(run, model, rp):
     """Re-run the falsifier on the recorded failing input."""
+    spec = SPECS.get(rp.get("property"), {})
+    if "replay" in spec:
+        return spec["replay"](run, model, rp)
     hit = rp.get("hit")
     if not hit:
         print("replay file names no failing input: ", json.dumps(rp.get("broken")))
